@@ -160,7 +160,9 @@ class Parser:
             rhs = self.expr(ns)
             return N("assign", t, op=t.s, lhs=lhs, rhs=rhs)
         if t is not None and t.k == "p" and t.s in ("..", "..="):
-            die("ranges are outside the supported subset", t)
+            self.i += 1
+            rhs = self.binary(0, ns)
+            return N("range", t, lo=lhs, hi=rhs, incl=(t.s == "..="))
         return lhs
 
     def binary(self, level, ns):
@@ -179,8 +181,10 @@ class Parser:
 
     def cast(self, ns):
         e = self.unary(ns)
-        if self.is_id("as"):
-            die("`as` casts are outside the supported subset", self.cur())
+        while self.is_id("as"):
+            t = self.peek()
+            self.i += 1
+            e = N("cast", t, e=e, ty="::".join(self.path()))
         return e
 
     def unary(self, ns):
@@ -232,10 +236,16 @@ class Parser:
                 if name is None or name.k not in ("id", "int"):
                     die("expected a method or field name after '.'", t)
                 self.i += 1
-                if self.is_p("::"):
-                    die("turbofish is outside the supported subset", t)
+                turbofish = None
+                if self.is_p("::") and self.is_p("<", 1):
+                    self.i += 1
+                    j = skip_generics(self.t, self.i)
+                    turbofish = split_shr(self.t[self.i:j])[1:-1]
+                    self.i = j
+                    if not self.is_p("("):
+                        die("generic arguments without a call", t)
                 if self.is_p("("):
-                    e = N("mcall", name, recv=e, name=name.s, args=self.args())
+                    e = N("mcall", name, recv=e, name=name.s, args=self.args(), turbofish=turbofish)
                 else:
                     e = N("field", name, recv=e, name=name.s)
             else:
@@ -250,9 +260,11 @@ class Parser:
             v, suffix = (t.s.split(":") + [""])[:2]
             return N("int", t, value=int(v, 0), suffix=suffix)
         if t.k == "float":
-            die("float literals are outside the supported subset", t)
+            self.i += 1
+            return N("float", t, text=t.s)
         if t.k == "str":
-            die("string literals are outside the supported subset", t)
+            self.i += 1
+            return N("str", t, value=t.s)
         if is_p(t, "("):
             es, comma = Parser(self.group(), t).expr_list()
             if len(es) == 1 and not comma:
@@ -300,7 +312,20 @@ class Parser:
                 inner = self.group()
                 return N("macro", t, name=path[-1], delim=delim, toks=inner)
             if self.is_p("{") and not ns and path[-1][0].isupper():
-                die("struct literals are outside the supported subset", t)
+                inner = self.group()
+                fields = []
+                for part in split_top(inner, ","):
+                    if not part:
+                        continue
+                    if part[0].k != "id":
+                        die("unsupported struct-literal field", part[0])
+                    if len(part) == 1:
+                        fields.append((part[0].s, N("path", part[0], segs=[part[0].s])))
+                    elif is_p(part[1], ":"):
+                        fields.append((part[0].s, Parser(part[2:], part[0]).whole_expr()))
+                    else:
+                        die("unsupported struct-literal field", part[0])
+                return N("struct", t, path=path, fields=fields)
             return N("path", t, segs=path)
         die(f"unsupported expression starting with {t.s!r}", t)
 
@@ -315,8 +340,17 @@ class Parser:
                 if self.at_end():
                     die("unterminated closure parameter list", t)
                 params.append(self.pattern_no_or())
-                if self.is_p(":"):
-                    die("typed closure parameters are outside the supported subset", self.cur())
+                if self.is_p(":"):          # the declared type of a parameter is not needed
+                    depth = 0
+                    while not self.at_end():
+                        c = self.peek()
+                        if c.k == "p" and c.s in ("<", "(", "["):
+                            depth += 1
+                        elif c.k == "p" and c.s in (">", ")", "]"):
+                            depth -= 1
+                        elif depth == 0 and c.k == "p" and c.s in (",", "|"):
+                            break
+                        self.i += 1
                 if self.is_p(","):
                     self.i += 1
             self.eat_p("|")
@@ -332,10 +366,10 @@ class Parser:
             self.eat_p("=")
             scrut = self.expr(ns=True)
             then = self.block()
-            if not self.is_id("else"):
-                die("`if let` without `else` is outside the supported subset", t)
-            self.i += 1
-            els = self.if_() if self.is_id("if") else self.block()
+            els = None
+            if self.is_id("else"):
+                self.i += 1
+                els = self.if_() if self.is_id("if") else self.block()
             return N("iflet", t, pat=pat, scrut=scrut, then=then, els=els)
         cond = self.expr(ns=True)
         then = self.block()
@@ -385,8 +419,23 @@ class Parser:
             if self.is_id("let"):
                 self.i += 1
                 pat = self.pattern()
+                ty = None
                 if self.is_p(":"):
-                    die("`let` with a declared type is outside the supported subset", self.cur())
+                    self.i += 1
+                    start = self.i
+                    depth = 0
+                    while not self.at_end():
+                        c = self.peek()
+                        if c.k == "p" and c.s in ("<", "(", "["):
+                            depth += 1
+                        elif c.k == "p" and c.s in (">", ")", "]"):
+                            depth -= 1
+                        elif c.k == "p" and c.s == ">>":
+                            depth -= 2
+                        elif depth == 0 and c.k == "p" and c.s in ("=", ";"):
+                            break
+                        self.i += 1
+                    ty = split_shr(self.t[start:self.i])
                 init = els = None
                 if self.is_p("="):
                     self.i += 1
@@ -397,7 +446,7 @@ class Parser:
                 else:
                     die("`let` without an initialiser is outside the supported subset", s)
                 self.eat_p(";")
-                stmts.append(N("let", s, pat=pat, init=init, els=els))
+                stmts.append(N("let", s, pat=pat, init=init, els=els, ty=ty))
                 continue
             if s.k == "id" and s.s in ("fn", "use", "struct", "enum", "impl", "mod", "const", "static"):
                 die(f"nested item `{s.s}` is outside the supported subset", s)
@@ -433,6 +482,7 @@ class Decl:
 
 class Items:
     def __init__(self):
+        self.all = []        # every Fn found, in order
         self.fns = {}        # key -> Fn  (None: ambiguous)
         self.statics = {}    # name -> (type tokens, init tokens, tok)
         self.decls = {}      # name -> Decl
@@ -507,7 +557,8 @@ def strip_refs(toks):
     return toks
 
 
-def walk(toks, items, impl=None):
+def walk(toks, items, impl=None, free=None):
+    """free: prefix under which the top-level functions of the file are recorded (None: not at all)"""
     i, n = 0, len(toks)
     attrs = []
     while i < n:
@@ -520,6 +571,9 @@ def walk(toks, items, impl=None):
                 c = match_close(toks, j)
                 attrs.append(toks[j + 1:c])
                 i = c + 1
+                continue
+            if i > 0 and is_id(toks[i - 1], "r"):     # raw identifier r#name
+                i += 1
                 continue
             die("stray '#'", t)
         if is_id(t, "pub"):
@@ -576,6 +630,13 @@ def walk(toks, items, impl=None):
                     key = f"{selfty}::{f.name}"
                     f.key = key
                     items.fns[key] = None if key in items.fns else f
+                    items.all.append(f)
+                elif free is not None:
+                    f = Fn(toks[i + 1].s, None, None, {}, {}, toks[i + 2:j], toks[j + 1:c], toks[i + 1])
+                    f.key = f"{free}::{f.name}"
+                    f.attrs = attrs
+                    items.fns[f.key] = None if f.key in items.fns else f
+                    items.all.append(f)
                 i = c + 1
             else:
                 i = j + 1
@@ -753,7 +814,7 @@ def type_name(ty):
         if ty[0] == "Tup":
             return "(" + ", ".join(type_name(x) for x in ty[1]) + ")"
         return {"List": "[{}]", "Opt": "Option<{}>", "Iter": "impl Iterator<Item={}>",
-                "Map": "HashMap<Arc<str>,{}>"}[ty[0]].format(type_name(ty[1]))
+                "Map": "HashMap<Arc<str>,{}>"}.get(ty[0], ty[0] + "<{}>").format(type_name(ty[1]))
     return names.get(ty, str(ty))
 
 
@@ -853,7 +914,8 @@ class V:
 
 
 def flat(v):
-    return list(v.t) if v.ty == "FnTy" else [v.t]
+    """the Coq arguments a value is passed as (a record = one argument per field)"""
+    return list(v.t) if isinstance(v.t, tuple) and v.ty not in ("FnRef", "Ctor", "Closure") else [v.t]
 
 
 SELF_TYPES = {"Type": "Ty", "FunctionType": "FnTy", "StructType": "Struct", "MultiType": "Multi"}
@@ -983,13 +1045,38 @@ class FT:
     # ---- binds: `?` and `iter.next().unwrap()` lifted out of an expression, in evaluation order
     def wrap(self, B, body, tok):
         for b in reversed(B):
-            if b[0] == "try":
-                if self.rty is not None and not (isinstance(self.rty, tuple) and self.rty[0] == "Opt"):
-                    die("`?` in a function that does not return an Option", tok)
-                body = coq_match(b[2], [(f"Some {b[1]}", body), ("None", "None")])
-            else:
-                body = coq_match(b[3], [("[]", app("rs_panic", b[4])), (f"{b[1]} :: {b[2]}", body)])
+            body = self.wrap_one(b, body, tok)
         return body
+
+    def wrap_one(self, b, body, tok):
+        if b[0] == "try":
+            if self.rty is not None and not (isinstance(self.rty, tuple) and self.rty[0] == "Opt"):
+                die("`?` in a function that does not return an Option", tok)
+            return coq_match(b[2], [(f"Some {b[1]}", body), ("None", "None")])
+        if b[0] == "uncons":
+            return coq_match(b[3], [("[]", app("rs_panic", b[4])), (f"{b[1]} :: {b[2]}", body)])
+        die(f"internal: unknown bind {b[0]}", tok)
+
+    # hooks for translators built on this one (valuefns2coq.py)
+    def ctype(self, ty, tok=None):
+        return coq_ty(ty, tok)
+
+    def cdefault(self, ty, tok):
+        return default_of(ty, tok)
+
+    def leaf(self, v, tok):
+        """the text of a value that is the result of the function / closure"""
+        return v.t, v.ty
+
+    def let_type(self, s):
+        if getattr(s, "ty", None):
+            die("`let` with a declared type is outside the supported subset", s.tok)
+        return None
+
+    def unit_cont(self, cont, tok):
+        if cont is None:
+            die("this block must end in a value or a `return`", tok)
+        return cont(V("tt", "Unit"))
 
     def no_binds(self, B, tok, what):
         if B:
@@ -1063,7 +1150,7 @@ class FT:
             if e.idx.k != "int":
                 die("indexing is supported with a literal index only", e.tok)
             # slice[i] panics when out of bounds
-            return V(app("nth", str(e.idx.value), v.t, app("rs_panic", default_of(v.ty[1], e.tok))), v.ty[1])
+            return V(app("nth", str(e.idx.value), v.t, app("rs_panic", self.cdefault(v.ty[1], e.tok))), v.ty[1])
         if k == "macro":
             if e.name == "var_type":
                 return VarType(self, e.toks, env, e.tok).whole()
@@ -1223,6 +1310,8 @@ class FT:
 
     def method(self, e, env, B, expect):
         name, nargs = e.name, len(e.args)
+        if getattr(e, "turbofish", None):
+            die("generic arguments on a method call (turbofish) are outside the supported subset", e.tok)
         if name in ("clone", "as_ref") and nargs == 0:
             return self.expr(e.recv, env, B, expect)
         if name == "into" and nargs == 0:
@@ -1239,7 +1328,7 @@ class FT:
             if self.rty is None:
                 die("`next().unwrap()` inside a closure is outside the supported subset", e.tok)
             h = self.fresh()
-            B.append(("uncons", h, it.t, it.t, default_of(self.rty, e.tok)))
+            B.append(("uncons", h, it.t, it.t, self.cdefault(self.rty, e.tok)))
             return V(h, it.ty[1])
         if name == "next":
             die("`next()` is supported only as `<local iterator>.next().unwrap()`", e.tok)
@@ -1432,11 +1521,23 @@ class FT:
             return self.product(p.pats, tys, ", ")
         die("pattern does not fit the scrutinee tuple", p.tok)
 
-    # ---- tail position: -> (Coq text, type).  `k`: what a block without a value continues with
-    def tail(self, e, env, k):
+    # ---- tail position: -> (Coq text, type).
+    #      cont = None: the value is the result of the function / closure;
+    #      cont = f: the value v continues as f(v) -> (text, type)  (a block without a value
+    #      continues with the unit value: the rest of a loop body, a join point after `let x = if ..`)
+    def finish(self, v, B, cont, tok):
+        if cont is None:
+            if v.ty in ("FnTy", "FnRef", "Ctor"):
+                die(f"a value of type {type_name(v.ty)} in result position", tok)
+            text, ty = self.leaf(v, tok)
+        else:
+            text, ty = cont(v)
+        return self.wrap(B, text, tok), ty
+
+    def tail(self, e, env, cont):
         kind = e.k
         if kind == "block":
-            return self.block(e, env, k)
+            return self.block(e, env, cont)
         if kind == "return":
             return self.tail(e.e, env, None)
         if kind == "if":
@@ -1444,13 +1545,11 @@ class FT:
             c = self.expr(e.cond, env, B)
             if c.ty != "Bool":
                 die("condition that is not a bool", e.tok)
-            a, aty = self.block(e.then, env, k)
+            a, aty = self.block(e.then, env, cont)
             if e.els is None:
-                if k is None:
-                    die("`if` without `else` in value position", e.tok)
-                b, bty = k, None
+                b, bty = self.unit_cont(cont, e.tok)
             else:
-                b, bty = self.tail(e.els, env, k)
+                b, bty = self.tail(e.els, env, cont)
             return self.wrap(B, coq_if(c.t, a, b), e.tok), unify(aty, bty, e.tok)
         if kind == "iflet":
             B = []
@@ -1461,12 +1560,15 @@ class FT:
             txt, binds, irref = alts[0]
             env2 = dict(env)
             env2.update(binds)
-            a, aty = self.block(e.then, env2, k)
-            b, bty = self.tail(e.els, env, k)
+            a, aty = self.block(e.then, env2, cont)
+            if e.els is None:
+                b, bty = self.unit_cont(cont, e.tok)
+            else:
+                b, bty = self.tail(e.els, env, cont)
             rows = [(txt, a)] + ([] if irref else [("_", b)])
             return self.wrap(B, coq_match(v.t, rows), e.tok), unify(aty, bty, e.tok)
         if kind == "match":
-            return self.match_tail(e.scrut, e.arms, env, k, e.tok)
+            return self.match_tail(e.scrut, e.arms, env, cont, e.tok)
         if kind == "macro" and e.name == "match_any":
             cut = None
             depth = 0
@@ -1482,28 +1584,26 @@ class FT:
                 die("match_any!: expected `scrutinee, arms`", e.tok)
             scrut = Parser(e.toks[:cut], e.tok).whole_expr()
             arms = Parser(e.toks[cut + 1:], e.tok).match_arms()
-            return self.match_tail(scrut, arms, env, k, e.tok)
+            return self.match_tail(scrut, arms, env, cont, e.tok)
         if kind == "for":
             die("`for` is supported as a statement only", e.tok)
         B = []
-        v = self.expr(e, env, B, self.rty)
-        if v.ty in ("FnTy", "FnRef", "Ctor"):
-            die(f"a value of type {type_name(v.ty)} in result position", e.tok)
-        return self.wrap(B, v.t, e.tok), v.ty
+        v = self.expr(e, env, B, self.rty if cont is None else None)
+        return self.finish(v, B, cont, e.tok)
 
-    def match_tail(self, scrut, arms, env, k, tok):
+    def match_tail(self, scrut, arms, env, cont, tok):
         B = []
         es = scrut.es if scrut.k == "tuple" else [scrut]
         vals = [self.expr(x, env, B) for x in es]
         for v in vals:
-            if v.ty in ("FnTy", "FnRef", "Ctor"):
+            if v.ty in ("FnTy", "FnRef", "Ctor") or isinstance(v.t, tuple):
                 die(f"match on a {type_name(v.ty)}", tok)
         if not arms:
             die("match without arms", tok)
-        text, ty = self.arms(vals, arms, 0, env, k, tok)
+        text, ty = self.arms(vals, arms, 0, env, cont, tok)
         return self.wrap(B, text, tok), ty
 
-    def arms(self, vals, arms, start, env, k, tok):
+    def arms(self, vals, arms, start, env, cont, tok):
         if start >= len(arms):
             die("the last arm of a match is guarded", tok)
         scr = ", ".join(v.t for v in vals)
@@ -1512,11 +1612,22 @@ class FT:
             arm = arms[idx]
             alts = self.arm_alts(arm.pat, vals)
             if arm.guard is None:
+                if (not rows and len(alts) == 1 and alts[0][2] and len(vals) > 1 and arm.pat.k == "ptuple"
+                        and all(is_ident(v.t) for v in vals)
+                        and all(q.k in ("pbind", "pwild") for q in arm.pat.pats)):
+                    env2 = dict(env)                # `(a, b) => ..` alone: the names ARE the scrutinee
+                    for q, v in zip(arm.pat.pats, vals):
+                        if q.k == "pbind":
+                            env2[q.name] = v
+                    return self.tail(arm.body, env2, cont)
                 for txt, binds, _ in alts:          # or-patterns: one row per alternative, in order
                     env2 = dict(env)
                     env2.update(binds)
-                    body, bty = self.tail(arm.body, env2, k)
+                    body, bty = self.tail(arm.body, env2, cont)
                     ty = unify(ty, bty, arm.tok)
+                    if (len(vals) == 1 and is_ident(txt) and binds
+                            and not re.search(r"(?<![\w.])" + re.escape(txt) + r"(?![\w'])", body)):
+                        txt = "_"               # a catch-all binder that is not used
                     rows.append((txt, body))
                 continue
             # a guarded arm: when the guard fails the LATER arms are tried on the same scrutinee
@@ -1534,11 +1645,14 @@ class FT:
                 env2.update(binds)
             Bg = []
             g = self.expr(arm.guard, env2, Bg)
+            if Bg and all(b[0] == "letp" for b in Bg):       # pure destructuring lets stay in the guard
+                g = V("(" + ind(self.wrap(Bg, g.t, arm.tok), 1) + ")", g.ty)
+                Bg = []
             self.no_binds(Bg, arm.tok, "a match guard")
             if g.ty != "Bool":
                 die("guard that is not a bool", arm.tok)
-            body, bty = self.tail(arm.body, env2, k)
-            rest, rty = self.arms(vals, arms, idx + 1, env, k, tok)
+            body, bty = self.tail(arm.body, env2, cont)
+            rest, rty = self.arms(vals, arms, idx + 1, env, cont, tok)
             ty = unify(unify(ty, bty, arm.tok), rty, arm.tok)
             if alias:
                 return coq_if(g.t, body, rest), ty
@@ -1548,8 +1662,8 @@ class FT:
             return coq_match(scr, rows), ty
         return coq_match(scr, rows), ty
 
-    def block(self, e, env, k):
-        return self.stmts(e.stmts, 0, e.tail, dict(env), k, e.tok)
+    def block(self, e, env, cont):
+        return self.stmts(e.stmts, 0, e.tail, dict(env), cont, e.tok)
 
     def mutation(self, x, env, B):
         """`Arc::make_mut(&mut v.0).extend(..)` / `.insert(..)` on a local MultiType -> (v, new value)"""
@@ -1571,27 +1685,59 @@ class FT:
         arg = self.have(self.expr(x.args[0], env, B, "Ty"), "Ty", x.tok, "insert")
         return var, app("rs_hashset_insert", v.t, arg.t)
 
-    def stmts(self, ss, i, tail, env, k, tok):
+    def bind_let(self, s, v, B, env, rest):
+        """`let <pattern> = v;` followed by rest(env') -> (text, type)"""
+        env2 = dict(env)
+        if s.pat.k == "pbind":
+            cn = coq_ident(s.pat.name)
+            if B and is_ident(v.t) and B[-1][1] == v.t and v.t.startswith("x__"):
+                b = B[-1]                              # `let x = e?;` -> the match binds x itself
+                B[-1] = (b[0], cn) + b[2:]
+                env2[s.pat.name] = V(cn, v.ty)
+                body, ty = rest(env2)
+                return self.wrap(B, body, s.tok), ty
+            if isinstance(v.t, tuple):
+                if v.ty in ("FnRef", "Ctor"):
+                    die("binding a function is outside the supported subset", s.tok)
+                if not all(is_ident(x) for x in v.t):
+                    die(f"binding a {type_name(v.ty)} that is not a variable is outside the supported subset", s.tok)
+                env2[s.pat.name] = v                   # a record of variables: the name is an alias
+                body, ty = rest(env2)
+                return self.wrap(B, body, s.tok), ty
+            env2[s.pat.name] = V(cn, v.ty)
+            body, ty = rest(env2)
+            return self.wrap(B, f"let {cn} := {v.t} in\n{body}", s.tok), ty
+        if s.pat.k == "pwild":
+            body, ty = rest(env2)
+            return self.wrap(B, body, s.tok), ty
+        alts = self.pat_alts(s.pat, v.ty)
+        if len(alts) != 1 or not alts[0][2]:
+            die("refutable pattern in `let` without `else`", s.tok)
+        txt, binds, _ = alts[0]
+        env2.update(binds)
+        body, ty = rest(env2)
+        return self.wrap(B, f"let '{txt} := {v.t} in\n{body}", s.tok), ty
+
+    def stmts(self, ss, i, tail, env, cont, tok):
         if i == len(ss):
             if tail is not None:
-                return self.tail(tail, env, k)
-            if k is None:
-                die("this block must end in a value or a `return`", tok)
-            return k, None
+                return self.tail(tail, env, cont)
+            return self.unit_cont(cont, tok)
         s = ss[i]
 
         def rest(env2):
-            return self.stmts(ss, i + 1, tail, env2, k, tok)
+            return self.stmts(ss, i + 1, tail, env2, cont, tok)
 
         if s.k == "let":
             B = []
+            expect = self.let_type(s)
             for name in list(env):
                 v = env[name]
                 if isinstance(v.ty, tuple) and v.ty[0] == "Iter" and count_var(s.init, name) > 1 and \
                         self.has_next(s.init, name):
                     die(f"`{name}` is used again in the statement that advances it", s.tok)
             if s.els is not None:
-                v = self.expr(s.init, env, B)
+                v = self.expr(s.init, env, B, expect)
                 alts = self.pat_alts(s.pat, v.ty)
                 if len(alts) != 1:
                     die("or-pattern in `let .. else`", s.tok)
@@ -1602,30 +1748,35 @@ class FT:
                 body, ty = rest(env2)
                 rows = [(txt, body)] + ([] if irref else [("_", other)])
                 return self.wrap(B, coq_match(v.t, rows), s.tok), ty
-            v = self.expr(s.init, env, B)
-            if v.ty in ("FnRef", "Ctor"):
-                die("binding a function is outside the supported subset", s.tok)
-            env2 = dict(env)
-            if s.pat.k == "pbind":
+            init = s.init
+            if init.k in ("if", "iflet", "match") or (init.k == "block" and init.stmts):
+                # `let x = if c { a } else { ..; return e; b };` : the rest is a join point
+                if s.pat.k != "pbind":
+                    die("`let <pattern> = if/match ..` is supported for a plain name only", s.tok)
+                self.joins = getattr(self, "joins", 0) + 1
+                kname = f"k__{self.joins}"
+                seen = []
+
+                def join(v):
+                    if isinstance(v.t, tuple):
+                        die(f"a {type_name(v.ty)} out of an `if`/`match` is outside the supported subset", s.tok)
+                    seen.append(v.ty)
+                    return app(kname, v.t), None
+                head, _ = self.tail(init, env, join)
+                xty = expect
+                for t in seen:
+                    xty = unify(xty, t, s.tok)
+                if xty is None:
+                    die("the type of this `let` is not known", s.tok)
                 cn = coq_ident(s.pat.name)
-                if B and B[-1][1] == v.t:              # `let x = e?;` -> the match binds x itself
-                    b = B[-1]
-                    B[-1] = (b[0], cn) + b[2:]
-                    env2[s.pat.name] = V(cn, v.ty)
-                    body, ty = rest(env2)
-                    return self.wrap(B, body, s.tok), ty
-                if v.ty == "FnTy":
-                    die("binding a FunctionType is outside the supported subset", s.tok)
-                env2[s.pat.name] = V(cn, v.ty)
+                env2 = dict(env)
+                env2[s.pat.name] = V(cn, xty)
                 body, ty = rest(env2)
-                return self.wrap(B, f"let {cn} := {v.t} in\n{body}", s.tok), ty
-            alts = self.pat_alts(s.pat, v.ty)
-            if len(alts) != 1 or not alts[0][2]:
-                die("refutable pattern in `let` without `else`", s.tok)
-            txt, binds, _ = alts[0]
-            env2.update(binds)
-            body, ty = rest(env2)
-            return self.wrap(B, f"let '{txt} := {v.t} in\n{body}", s.tok), ty
+                return (f"let {kname} := fun ({cn} : {self.ctype(xty, s.tok)}) =>\n  {ind(body)} in\n{head}"), ty
+            v = self.expr(init, env, B, expect)
+            if expect is not None:
+                v = self.convert(v, expect, s.tok)
+            return self.bind_let(s, v, B, env, rest)
         x = s.e
         if x.k == "return":
             if i + 1 < len(ss) or tail is not None:
@@ -1639,6 +1790,19 @@ class FT:
             a, aty = self.block(x.then, env, None)      # must leave through `return`
             b, bty = rest(env)
             return self.wrap(B, coq_if(c.t, a, b), x.tok), unify(aty, bty, x.tok)
+        if x.k == "iflet" and x.els is None:
+            B = []
+            v = self.expr(x.scrut, env, B)
+            alts = self.pat_alts(x.pat, v.ty)
+            if len(alts) != 1:
+                die("or-pattern in `if let`", x.tok)
+            txt, binds, irref = alts[0]
+            env2 = dict(env)
+            env2.update(binds)
+            a, aty = self.block(x.then, env2, None)     # must leave through `return`
+            b, bty = rest(env)
+            rows = [(txt, a)] + ([] if irref else [("_", b)])
+            return self.wrap(B, coq_match(v.t, rows), x.tok), unify(aty, bty, x.tok)
         if x.k == "for":
             B = []
             it = self.as_iter(self.expr(x.iter, env, B), x.tok)
@@ -1653,10 +1817,10 @@ class FT:
             loop = "loop__" if self.loops == 1 else f"loop__{self.loops}"
             env2 = dict(env)
             env2.update(binds)
-            body, bty = self.block(x.body, env2, app(loop, "it__"))
+            body, bty = self.block(x.body, env2, lambda v: (app(loop, "it__"), None))
             ty = unify(aty, bty, x.tok)
             m = coq_match("it__", [("[]", after), (f"{txt} :: it__", body)])
-            text = (f"(fix {loop} (it__ : {coq_ty(it.ty, x.tok)}) : {coq_ty(self.rty, x.tok)} :=\n"
+            text = (f"(fix {loop} (it__ : {self.ctype(it.ty, x.tok)}) : {self.ctype(self.rty, x.tok)} :=\n"
                     f"   {ind(m, 3)}) {par(it.t)}")
             return self.wrap(B, text, x.tok), ty
         B = []
